@@ -203,6 +203,16 @@ func (cl *Cluster) joinVariants(r *Req, req *sarama.JoinGroupRequest) []gx.Varia
 			if ready {
 				vs = append(vs, errAnswer(f, sarama.ErrUnknownMemberId, true))
 			}
+		case "join-notcoord":
+			// the broker stopped being the group's coordinator (the member keeps its registration)
+			if ready {
+				vs = append(vs, errAnswer(f, sarama.ErrNotCoordinatorForConsumer, false))
+			}
+		case "join-other":
+			// an error the client has no special treatment for (the coordinator forgets nothing)
+			if ready {
+				vs = append(vs, errAnswer(f, sarama.ErrInconsistentGroupProtocol, false))
+			}
 		case "join-drop":
 			if ready {
 				vs = append(vs, cl.wrap(r, "JoinGroup", f, func() {
@@ -298,6 +308,8 @@ func (cl *Cluster) syncVariants(r *Req, req *sarama.SyncGroupRequest) []gx.Varia
 				// the broker stopped being the group's coordinator (the member keeps its registration: the
 				// coordinator the member finds next has the group's state)
 				vs = append(vs, answer(f, sarama.ErrNotCoordinatorForConsumer, nil, false))
+			case "sync-other":
+				vs = append(vs, answer(f, sarama.ErrGroupAuthorizationFailed, nil, false))
 			case "sync-drop":
 				vs = append(vs, cl.wrap(r, "SyncGroup", f, func() {
 					cl.logGroup(g, GroupReq{Kind: "SyncGroup", Conn: r.Conn.Label, MemberID: req.MemberId, Generation: req.GenerationId, Answer: f})
